@@ -44,6 +44,7 @@ class Rec:
         self.nrand = 0
         self.uord_cur = None
         self.stats = {}
+        self.concrete = []  # the concrete operations of the history, for the unobserved replay (blind_replay)
 
     def count(self, k, n=1):
         self.stats[k] = self.stats.get(k, 0) + n
@@ -367,6 +368,9 @@ def observe(l, r, pre=""):
     return f"ok{pre} loss=#{f2b(float(v))} keys={keys} pending={pend} npoints={l.npoints}"
 
 
+LAST_CONCRETE = []
+
+
 def execute(case, hook=None, record=True):
     """run the history of `case` on the real learner.  Returns (lines, outs, learner, stats, error) where
     error = None or dict(op, type, msg, where, chain, discarded) for an exception raised by the learner"""
@@ -378,6 +382,8 @@ def execute(case, hook=None, record=True):
     r = Rec(l)
     _REC = r
     try:
+        global LAST_CONCRETE
+        LAST_CONCRETE = r.concrete
         return _execute(case, rng, l, r, hook)
     finally:
         _REC = None
@@ -436,7 +442,9 @@ def _execute(case, rng, l, r, hook):
                 n, commit = int(op[1]), bool(op[2])
 
                 def do(n=n, commit=commit):
+                    r.concrete.append(["ask", n, commit, None])
                     pts, imps = l.ask(n, tell_pending=commit)
+                    r.concrete[-1][3] = (list(pts), list(imps))
                     emit.result = (pts, imps, commit)
                     if commit:
                         outstanding.extend(p for p in pts if p not in outstanding)
@@ -462,6 +470,7 @@ def _execute(case, rng, l, r, hook):
             elif op[0] == "remove_unfinished":
                 def do():
                     nonlocal discarded
+                    r.concrete.append(["remove_unfinished"])
                     l.remove_unfinished()
                     outstanding.clear()
                     discarded = True
@@ -474,7 +483,27 @@ def _execute(case, rng, l, r, hook):
         stats["conflicts"] = len(r.conflicts)
         stats["points"] = l.npoints
         return lines, outs, l, stats, err
+    if case["nops"] and case.get("bootstrap", rng.random() < 0.25):
+        # all corners handed out at once and completed in a random order (possibly all but one): the first refinement is
+        # asked for with exactly the points of the first triangulation known
+        nb = len(l._bounds_points)
+
+        def do(n=nb):
+            r.concrete.append(["ask", n, True, None])
+            pts, imps = l.ask(n, tell_pending=True)
+            r.concrete[-1][3] = (list(pts), list(imps))
+            emit.result = (pts, imps, True)
+            outstanding.extend(p for p in pts if p not in outstanding)
+            return f" pts={','.join(str(r.pid(p)) for p in pts)} imps={','.join('#' + str(f2b(float(i))) for i in imps)}"
+
+        ok = emit(f"lnd ask {nb} 1", do, "ask")
+        rng.shuffle(outstanding)
+        keep = rng.choice([0, 0, 1])
+        while ok and len(outstanding) > keep:
+            ok = tell_one(case, l, r, emit, outstanding.pop(), "tell")
     for _ in range(case["nops"]):
+        if err:
+            break
         x = rng.random()
         total = l.npoints + len(l.pending_points)
         if x < 0.36 and total < max_pts:
@@ -482,7 +511,9 @@ def _execute(case, rng, l, r, hook):
             commit = rng.random() < 0.7
 
             def do(n=n, commit=commit):
+                r.concrete.append(["ask", n, commit, None])
                 pts, imps = l.ask(n, tell_pending=commit)
+                r.concrete[-1][3] = (list(pts), list(imps))
                 emit.result = (pts, imps, commit)
                 if commit:
                     for p in pts:
@@ -514,6 +545,7 @@ def _execute(case, rng, l, r, hook):
                 continue
 
             def do(p=p):
+                r.concrete.append(["tell_pending", p])
                 l.tell_pending(p)
                 outstanding.append(p)
 
@@ -522,6 +554,7 @@ def _execute(case, rng, l, r, hook):
             p = rng.choice(list(l.data))  # a retry: an evaluated point is marked pending again - ignored by the learner (f204e85)
 
             def do(p=p):
+                r.concrete.append(["tell_pending", p])
                 l.tell_pending(p)
 
             ok = emit(f"lnd tell_pending {r.pid(p)}", do, "tell_pending_known")
@@ -531,6 +564,7 @@ def _execute(case, rng, l, r, hook):
         elif x < 0.95 and case["discard"]:
             def do():
                 nonlocal discarded
+                r.concrete.append(["remove_unfinished"])
                 l.remove_unfinished()
                 outstanding.clear()
                 discarded = True
@@ -545,11 +579,38 @@ def _execute(case, rng, l, r, hook):
     return lines, outs, l, stats, err
 
 
+def blind_replay(case, concrete):
+    """the same concrete operations on a fresh learner with NOTHING observed in between (no loss(), no read of `tri`, no
+    recorder): yields (index of the ask among the asks, result or exception) for every ask, and stops at the first
+    exception.  The property quantifies over all ask/tell interleavings, the ones without a loss() call included."""
+    global _REC
+    assert _REC is None
+    warnings.simplefilter("ignore")
+    l = make_learner(case)
+    k = 0
+    for op in concrete:
+        try:
+            if op[0] == "ask":
+                pts, imps = l.ask(op[1], tell_pending=op[2])
+                yield k, (list(pts), list(imps)), l
+                k += 1
+            elif op[0] == "tell":
+                l.tell(op[1], op[2])
+            elif op[0] == "tell_pending":
+                l.tell_pending(op[1])
+            elif op[0] == "remove_unfinished":
+                l.remove_unfinished()
+        except Exception as e:  # noqa: BLE001
+            yield k, e, l
+            return
+
+
 def tell_one(case, l, r, emit, p, kind, value=None):
     v = value_of(case, p) if value is None else value
     vmin, vmax = float(np.min(v)), float(np.max(v))
 
     def do():
+        r.concrete.append(["tell", p, v])
         l.tell(p, v)
 
     return emit(f"lnd tell {r.pid(p)} {f2b(vmin)} {f2b(vmax)}", do, kind)
@@ -559,6 +620,15 @@ def _rect(bounds, **kw):
     c = {"seed": 0, "nops": 0, "dim": len(bounds), "domain": "rect", "loss": "default", "vdim": 1, "fn": "smooth",
          "discard": False, "bounds": [tuple(map(float, b)) for b in bounds]}
     c["bbox"] = c["bounds"]
+    c.update(kw)
+    return c
+
+
+def _hull(pts, **kw):
+    c = {"seed": 0, "nops": 0, "dim": len(pts[0]), "domain": "hull", "loss": "default", "vdim": 1, "fn": "smooth",
+         "discard": False, "hull": [tuple(map(float, p)) for p in pts]}
+    arr = np.array(c["hull"])
+    c["bbox"] = [(float(a), float(b)) for a, b in zip(arr.min(axis=0), arr.max(axis=0))]
     c.update(kw)
     return c
 
@@ -582,6 +652,14 @@ CORPUS = [
           script=[["ask", 4, 1], ["tell_all"], ["ask", 4, 1], ["tell_nth", 0], ["ask", 1, 1], ["tell_nth", 0], ["ask", 2, 1]]),
     _rect([(0, 1), (0, 1), (0, 1)], name="pending_point_on_shared_new_face_3d", loss="uniform", fn="const", expect="pass",
           script=[["ask", 8, 1], ["tell_all"], ["ask", 5, 1], ["tell_nth", 0], ["ask", 1, 1], ["tell_nth", 1], ["ask", 2, 1]]),
+    # exactly dim+1 evaluated points and nothing pending when the first refinement is asked for (the triangulation is created
+    # lazily: the unobserved replay of these histories reaches `_ask` before anything has read `tri`)
+    _hull([(0, 0), (2, 0), (0.5, 1.5)], name="first_refinement_triangle_domain", loss="uniform", expect="pass",
+          script=[["ask", 3, 1], ["tell_nth", 2], ["tell_nth", 0], ["tell_nth", 0], ["ask", 1, 0], ["ask", 2, 1], ["tell_all"], ["ask", 1, 1]]),
+    _hull([(0, 0, 0), (1, 0, 0), (0, 2, 0), (0, 0, 3)], name="first_refinement_tetrahedron_domain", vdim=2, expect="pass",
+          script=[["ask", 4, 1], ["tell_nth", 1], ["tell_nth", 2], ["tell_nth", 0], ["tell_nth", 0], ["ask", 1, 1], ["tell_all"], ["ask", 2, 1]]),
+    _rect([(-1, 3), (0, 1)], name="first_refinement_three_corners_in", loss="uniform", expect="pass",
+          script=[["ask", 4, 1], ["tell_nth", 3], ["tell_nth", 0], ["tell_nth", 0], ["ask", 1, 1], ["tell_all"], ["ask", 1, 1]]),
     _rect([(0, 1e-3), (10, 1000), (0, 1)], name="box_aspect_1e6", fn="linear",
           script=[op for _ in range(26) for op in (["ask", 1, 1], ["tell_all"])]),
 ]
